@@ -321,6 +321,14 @@ class ObjectHistories(Family):
             for ln in (1, 2, 3):
                 for seq in itertools.product(range(8), repeat=ln):
                     yield ('one_key_many_signatures', list(seq), comp)
+        for comp in (True, False):
+            for seq in itertools.product(range(4), repeat=3):
+                yield ('one_key_signs_sequence', list(seq), comp)
+            for n_other in (1, 2, 5):
+                for keep in (False, True):
+                    yield ('pub_outlives_secret', [n_other, int(keep)], comp)
+            for bad in ('r0', 'rn', 's0', 'sn', 'garbage'):
+                yield ('valid_key_after_failed_verify', [bad], comp)
         for seq in itertools.product((True, False), repeat=3):
             for si in range(3):
                 yield ('compression_sequence', list(seq), si)
@@ -376,6 +384,69 @@ class ObjectHistories(Family):
                 if bool(got) != want:
                     raise Viol('one public-key object, signature sequence %r (encoded lengths %r): verdict for signature #%d' % (a, lens, i), want, got)
             return kind, len(set(lens)) > 1
+        if kind == 'one_key_signs_sequence':
+            # ONE private-key object signs a sequence of digests whose signatures have different encoded lengths (owned
+            # nonces: 31-byte r, r >= 2^255, short s, ordinary), in every order
+            from bitcoin.wallet import CKey
+            sec = K.SECRETS[6]
+            key = CKey(K.sbytes(sec), b)
+            sp = K.special_r_nonces()
+            h0, h1 = DIGESTS[6], DIGESTS[3]
+            plan = [(h0, sp['r31']), (h0, sp['rhigh']), (h1, K.nonce_with(sec, h1, want_s31=True)), (h1, sp['rlow'])]
+            lens = []
+            for i in a:
+                hh, k = plan[i]
+                try:
+                    sig, owned = K.with_nonce(k, key.sign, hh)
+                except Exception as e:  # noqa
+                    raise Viol('one key object signing the sequence %r (encoded lengths so far %r): sign() raised %s' % (a, lens, type(e).__name__), 'signature', '%s: %s' % (type(e).__name__, e))
+                rs = EC.der_parse_strict(sig)
+                lens.append(len(sig))
+                if rs is None or not EC.verify(EC.mul(sec), hh, rs[0], rs[1]) or rs[1] > EC.HALF_N:
+                    raise Viol('one key object signing the sequence %r: signature #%d is not a valid strict-DER low-S signature of its digest' % (a, len(lens)), 'valid', bytes(sig).hex())
+                if owned and bytes(sig) != EC.der_encode(*EC.low_s(*EC.sign_with_nonce(sec, hh, k))):
+                    raise Viol('one key object signing the sequence %r: signature #%d differs from the deterministic result' % (a, len(lens)), None, bytes(sig).hex())
+                if not key.pub.verify(hh, sig):
+                    raise Viol('library does not verify its own signature (sequence %r)' % a, True, False)
+            return kind, len(set(lens)) > 1
+        if kind == 'pub_outlives_secret':
+            # the public key taken out of a secret that is dropped at once; then other secrets are created (and dropped or kept)
+            bitcoin.SelectParams('mainnet')
+            n_other, keep = a
+            sec = K.SECRETS[7]
+            wif = B58.check_encode(SECRET_PREFIX['mainnet'], K.sbytes(sec) + (b'\x01' if b else b''))
+            pub = CBitcoinSecret(wif).pub
+            r, s_ = EC.low_s(*EC.sign_with_nonce(sec, h, 4711))
+            mysig = EC.der_encode(r, s_)
+            held = []
+            for j in range(n_other):
+                osec = K.SECRETS[8 + j]
+                owif = B58.check_encode(SECRET_PREFIX['mainnet'], K.sbytes(osec) + (b'\x01' if b else b''))
+                o = CBitcoinSecret(owif)
+                osig = EC.der_encode(*EC.low_s(*EC.sign_with_nonce(osec, h, 4712 + j)))
+                if not o.pub.verify(h, osig):
+                    raise Viol('a later secret\'s public key does not verify its own signature', True, False)
+                if keep:
+                    held.append(o)
+                del o
+                if bytes(pub) != EC.pubkey(sec, b) or not pub.verify(h, mysig) or pub.verify(h, osig):
+                    raise Viol('a public key taken from a secret that was dropped: after %d other secret(s) were created it no longer verifies with its own key' % (j + 1), 'own signature accepted, other rejected', (bytes(pub).hex()[:20], bool(pub.verify(h, mysig)), bool(pub.verify(h, osig))))
+            return kind, True
+        if kind == 'valid_key_after_failed_verify':
+            sec = K.SECRETS[7]
+            pt = EC.mul(sec)
+            pub = CPubKey(EC.pubkey(sec, b))
+            r, s_ = EC.low_s(*EC.sign_with_nonce(sec, h, 4713))
+            badsig = {'r0': EC.der_encode(0, s_), 'rn': EC.der_encode(N, s_), 's0': EC.der_encode(r, 0), 'sn': EC.der_encode(r, N), 'garbage': b'\x30\x06\x02\x01\x01\x02\x01'}[a[0]]
+            for rep in (0, 1):
+                if pub.verify(h, badsig):
+                    raise Viol('signature with %s accepted' % a[0], False, True)
+                fresh = CPubKey(EC.pubkey(K.SECRETS[8], b))
+                if not fresh.is_fullyvalid or not fresh.is_valid:
+                    raise Viol('a valid public key built right after a refused signature (%s) is reported invalid' % a[0], True, False)
+                if not pub.verify(h, EC.der_encode(r, s_)) or not pub.is_fullyvalid:
+                    raise Viol('a valid signature checked right after a refused one (%s) is rejected' % a[0], True, False)
+            return kind, True
         if kind == 'compression_sequence':
             sec = K.SECRETS[b]
             k = CECKey()
